@@ -91,3 +91,9 @@ def oracle(c):
                     if want and m.group(2) != want and not (fl["unit"] == "icmp4" and m.group(2) == "Icmpv4"):
                         out.append(("stop-error-on-wrong-layer", {"op": op, "impl": o[-200:], "spec": fl}))
     return out
+
+
+def search(rng, corr_failures, run_cases):
+    import sys
+
+    return D.search_decode(sys.modules[__name__], rng, corr_failures, run_cases)
